@@ -13,7 +13,7 @@ Removes  == {Cmd("remove", "-", FALSE, t, m, "-", FALSE) : t \in {"d"} \cup File
 Uncommit == {Cmd("uncommit", "-", FALSE, "-", "-", "-", FALSE)}
 Merges(fl, coll) == {Cmd(k, "-", FALSE, "-", "-", i, x) :
                          k \in (IF fl = "git" THEN {"merge", "pull"} ELSE MergeOps),
-                         i \in {"same", "other", "delete", "rename"}, x \in coll}
+                         i \in {"same", "other", "delete", "rename", "rensame", "renother"}, x \in coll}
 \* merge-like commands start from a tree without a pending merge
 Plain(cls) == \A f \in Files : cls[f] \notin {"mergew", "confl"}
 CmdsFor(fl, cls) == Reverts \cup Removes \cup Uncommit
@@ -42,6 +42,9 @@ WitnessDirBackup   == ~(c.op = "remove" /\ \E e \in SpecAfter(c) : e.p = "d.~1~/
 WitnessCleanMerge  == ~(c.op \in MergeOps /\ E("a", LI("a")) \in SpecAfter(c))
 WitnessConflict    == ~(c.op \in MergeOps /\ E("a.THIS", L0("a")) \in SpecAfter(c) /\ E("a", "M") \in SpecAfter(c))
 WitnessDiscardOk   == ~(Discard(c) # {} /\ \E f \in Discard(c) : c.cls[f] \in UserCls /\ L0(f) \notin Tags(SpecAfter(c)))
+WitnessRenamedEdit == ~(c.op = "revert" /\ E("ar.~1~", L0("a")) \in SpecAfter(c))
+WitnessRenamedBothSides == ~(c.op \in MergeOps /\ c.inc = "same" /\ E("ar.THIS", L0("a")) \in SpecAfter(c))
+WitnessRenamedIncoming == ~(c.op \in MergeOps /\ c.inc = "rensame" /\ c.cls["a"] = "edit" /\ E("a2.THIS", L0("a")) \in SpecAfter(c))
 WitnessHelperAtRisk == ~(c.op = "revert" /\ c.backups /\ c.fl = "bzr" /\ \E f \in Protected(c) : c.cls[f] = "confl")
 Export == JsonSerialize(IOEnv.VF_OUT, SetToSeq({[c |-> x, before |-> SetToSeq(Before(x)), spec |-> SetToSeq(SpecAfter(x))]
                                                  : x \in CaseSet}))
